@@ -1,9 +1,11 @@
 // Stand-ins for the external crates / std I/O used by `process_violations` (group report; DESIGN
 // 2.9, T-ext). Included *outside* the group's `verus! { .. }` block, instead of orch_ext.rs.
 //
-// serde_json (rule E2): a JSON value is opaque. `to_value(d)` is either an error or a value that is a
-// fixed (uninterpreted) function `json_of` of the diagnostic's five fields. The JSON text, the
-// field names and the numeric encoding of the severity are NOT verified.
+// serde_json (rule E2): a JSON value is opaque. `to_value(d)` is a fixed (uninterpreted) function `json_of`
+// of the diagnostic's five fields (ASSUMED never to fail for this struct, see the shim). `to_writer_pretty`
+// fails exactly when a map KEY is not a string for serde (`crate::JsonKey`, prelude/report_printable.rs) or
+// the writer fails (`crate::stderr_write_ok`, uninterpreted). The JSON text, the field names and the numeric
+// encoding of the severity are NOT verified.
 mod serde_json {
     use vstd::prelude::*;
     use std::collections::HashMap;
